@@ -265,6 +265,19 @@ void MEDDLY::inter_mt::_compute(int L, unsigned in,
         return;
     }
 
+    if (arg1F->isTerminalNode(A) && arg2F->isTerminalNode(B)) {
+        // Two different non-zero terminals above level 0, in forests
+        // that are not fully reduced (integer or real values, or forests
+        // with different ranges). There is no node to unpack;
+        // as in the terminal cases above, TRUE and B = B
+        edge_value dummy;
+        dummy.set();
+        MEDDLY_DCASSERT(copy_arg2res);
+        copy_arg2res->compute(L, in, dummy, B, dummy, C);
+        MEDDLY_DCASSERT(dummy.isVoid());
+        return;
+    }
+
     //
     // Reorder A and B if they commute (same forest)
     //
